@@ -616,6 +616,14 @@ TrExpect ==
   /\ l' = l + 1
   /\ UNCHANGED <<scen, cfg, msg, order, reads, ch, hi, pkt, rcvd, skipTo, ackCum, ackGap, arw, outst, lastSack, sackEv, sn, newData, misc, rs, acc>>
 
+\* "diff": the harness compared the base-independent projection of this schedule run at another pair
+\* of initial TSNs with the reference run (C16: wrap-around is invisible)
+TrDiff ==
+  /\ IsEv("diff")
+  /\ viol' = viol \cup (IF ~E.equal THEN {V("C16_ShiftInvariant", <<E.label, E.idx, E.a, E.b>>)} ELSE {})
+  /\ l' = l + 1
+  /\ UNCHANGED <<scen, cfg, msg, order, reads, ch, hi, pkt, rcvd, skipTo, ackCum, ackGap, arw, outst, lastSack, sackEv, sn, step, newData, misc, rs, acc>>
+
 Passive == {"drop", "connclose", "txfail", "note"}
 TrPassive ==
   /\ l <= Len(Trace) /\ Trace[l].ev \in Passive
@@ -624,7 +632,7 @@ TrPassive ==
   /\ UNCHANGED <<scen, cfg, msg, order, reads, ch, hi, pkt, rcvd, skipTo, ackCum, ackGap, arw, outst, lastSack, sackEv, sn, newData, misc, rs, acc, viol>>
 
 Next == TrCfg \/ TrWCall \/ TrWrite \/ TrRead \/ TrTx \/ TrForge \/ TrChunkData \/ TrChunkSack \/ TrChunkFwd \/ TrChunkOther
-        \/ TrRx \/ TrSnap \/ TrSame \/ TrEnd \/ TrApi \/ TrCb \/ TrTick \/ TrExpect \/ TrPassive
+        \/ TrRx \/ TrSnap \/ TrSame \/ TrEnd \/ TrApi \/ TrCb \/ TrTick \/ TrExpect \/ TrDiff \/ TrPassive
 
 Spec == Init /\ [][Next]_vars
 
